@@ -165,29 +165,49 @@ func rulesC09(p *Prog, r *Report) {
 				if prefix == "" || len(idVals) != 1 {
 					continue
 				}
-				var consts []string
-				switch x := idVals[0].(type) {
-				case *ssa.Const:
-					consts = append(consts, x.Value.ExactString())
-				case *ssa.Parameter:
-					idx := paramIndex(x)
-					for _, cs := range p.CallSitesOf(fn) {
-						if args := cs.Common().Args; idx < len(args) {
-							if cv, ok := args[idx].(*ssa.Const); ok && cv.Value != nil {
-								consts = append(consts, cv.Value.ExactString())
+				// the sweep is the function that receives the constant id (the read may sit in a
+				// helper that is handed the sweep's own parameter)
+				type res struct {
+					fn *ssa.Function
+					k  string
+				}
+				var out []res
+				var resolve func(f *ssa.Function, v ssa.Value, d int)
+				resolve = func(f *ssa.Function, v ssa.Value, d int) {
+					if cv, ok := v.(*ssa.Convert); ok {
+						v = cv.X
+					}
+					switch x := v.(type) {
+					case *ssa.Const:
+						if x.Value != nil {
+							out = append(out, res{f, x.Value.ExactString()})
+						}
+					case *ssa.Parameter:
+						if d > 3 {
+							return
+						}
+						idx := paramIndex(x)
+						for _, cs := range p.CallSitesOf(f) {
+							args := cs.Common().Args
+							if idx < 0 || idx >= len(args) || cs.Parent() == nil {
+								continue
+							}
+							a := args[idx]
+							if cv, ok := a.(*ssa.Convert); ok {
+								a = cv.X
+							}
+							if k, isC := a.(*ssa.Const); isC && k.Value != nil {
+								out = append(out, res{f, k.Value.ExactString()})
+							} else {
+								resolve(cs.Parent(), a, d+1)
 							}
 						}
 					}
-				default:
-					if cv, ok := idVals[0].(*ssa.Convert); ok {
-						if k, isC := cv.X.(*ssa.Const); isC && k.Value != nil {
-							consts = append(consts, k.Value.ExactString())
-						}
-					}
 				}
-				for _, k := range consts {
-					key := m + ":" + prefix + "/" + k
-					keys[key] = append(keys[key], use{fn, p.instrPos(c)})
+				resolve(fn, idVals[0], 0)
+				for _, rs := range out {
+					key := m + ":" + prefix + "/" + rs.k
+					keys[key] = append(keys[key], use{rs.fn, p.instrPos(c)})
 				}
 			}
 		}
@@ -321,20 +341,74 @@ func rulesC09(p *Prog, r *Report) {
 	for _, sw := range sweeps {
 		name := fname(sw)
 		r.FuncsSeen[name] = true
-		var getC, setC []ssa.CallInstruction
-		var sliceCalls []*ssa.Call
+		// the sweep and the unexported helpers of its package it calls directly (cursor handling
+		// extracted into helpers is analysed at the call)
+		type hsite struct {
+			c      ssa.CallInstruction
+			in     *ssa.Function
+			anchor ssa.CallInstruction // the call in the sweep through which c is reached (nil: c is in the sweep)
+		}
+		var sites []hsite
 		for _, c := range calls(sw) {
-			if p.callIs(c, "GetLiquidationOffsetHolder") {
-				getC = append(getC, c)
+			sites = append(sites, hsite{c, sw, nil})
+			if h := c.Common().StaticCallee(); h != nil && h.Pkg == sw.Pkg && len(h.Blocks) > 0 && h.Object() != nil && !h.Object().Exported() {
+				for _, hc := range calls(h) {
+					sites = append(sites, hsite{hc, h, c})
+				}
 			}
-			if p.callIs(c, "SetLiquidationOffsetHolder") {
-				setC = append(setC, c)
+		}
+		// up: a helper parameter stands for what the sweep passes
+		up := func(v ssa.Value, st hsite) ssa.Value {
+			for {
+				if cv, ok := v.(*ssa.Convert); ok {
+					v = cv.X
+					continue
+				}
+				break
 			}
-			if p.callIs(c, "GetSliceStartEndForLiquidations") {
-				if cc, ok := c.(*ssa.Call); ok {
+			if pr, ok := v.(*ssa.Parameter); ok && st.anchor != nil && pr.Parent() == st.in {
+				if idx := paramIndex(pr); idx >= 0 && idx < len(st.anchor.Common().Args) {
+					return st.anchor.Common().Args[idx]
+				}
+			}
+			return v
+		}
+		var getC, setC []hsite
+		var sliceCalls []*ssa.Call
+		for _, st := range sites {
+			if p.callIs(st.c, "GetLiquidationOffsetHolder") {
+				getC = append(getC, st)
+			}
+			if p.callIs(st.c, "SetLiquidationOffsetHolder") {
+				setC = append(setC, st)
+			}
+			if p.callIs(st.c, "GetSliceStartEndForLiquidations") {
+				if cc, ok := st.c.(*ssa.Call); ok {
 					sliceCalls = append(sliceCalls, cc)
 				}
 			}
+		}
+		fromSlice := func(v ssa.Value, idx int) bool {
+			for {
+				if cv, ok := v.(*ssa.Convert); ok {
+					v = cv.X
+					continue
+				}
+				break
+			}
+			alts := p.valueAlts(v)
+			if len(alts) == 0 {
+				return false
+			}
+			for _, a := range alts {
+				if cv, ok := a.(*ssa.Convert); ok {
+					a = cv.X
+				}
+				if !p.fromSliceCall(a, sliceCalls, idx) {
+					return false
+				}
+			}
+			return true
 		}
 		// item loop: the loop containing the per-item unit / liquidation call
 		var item *Loop
@@ -376,9 +450,14 @@ func rulesC09(p *Prog, r *Report) {
 		// (b) after the loop, the offset write is unavoidable
 		r.Instance("R09.3")
 		blocked := map[*ssa.BasicBlock]bool{}
-		for _, c := range setC {
-			blocked[c.Block()] = true
+		for _, st := range setC {
+			if st.anchor == nil {
+				blocked[st.c.Block()] = true
+			} else if p.mustPassBlock(st.in, st.c.Block()) {
+				blocked[st.anchor.Block()] = true
+			}
 		}
+		setPos := p.instrPos(setC[0].c)
 		missed := false
 		for i, s := range item.Head.Succs {
 			_ = i
@@ -406,40 +485,65 @@ func rulesC09(p *Prog, r *Report) {
 			}
 		}
 		if missed {
-			r.Fail("R09.3", name+" offset stored", "after the item loop the function can return (or start the next app) without storing the advanced offset", p.instrPos(setC[0]), nil)
+			r.Fail("R09.3", name+" offset stored", "after the item loop the function can return (or start the next app) without storing the advanced offset", setPos, nil)
 		} else {
-			r.OK("R09.3", name+" offset stored", "every way out of the item loop passes SetLiquidationOffsetHolder", p.instrPos(setC[0]))
+			r.OK("R09.3", name+" offset stored", "every way out of the item loop passes SetLiquidationOffsetHolder", setPos)
 		}
 		// (c) same key: the holder's AppId at the write is the id it was read under
 		r.Instance("R09.3")
 		keyOK := true
 		why := ""
-		gArgs := callArgs(getC[0])
 		var idArg ssa.Value
-		for _, a := range gArgs[1:] {
+		for _, a := range callArgs(getC[0].c)[1:] {
 			if isUint64(a.Type()) {
-				idArg = a
+				idArg = up(a, getC[0])
 			}
 		}
-		for _, sc := range setC {
+		for _, st := range setC {
+			sc := st.c
 			sArgs := callArgs(sc)
 			holder := sArgs[len(sArgs)-1]
+			// an explicit `holder.AppId = id` reaching the write settles the key
+			if idArg != nil {
+				if ld, ok := holder.(*ssa.UnOp); ok {
+					if a, isA := ld.X.(*ssa.Alloc); isA {
+						if defs, entry := reachingStores(a, []string{"AppId"}, ld); !entry && len(defs) > 0 {
+							all := true
+							for _, d := range defs {
+								if d.whole || p.ExprKey(up(d.st.Val, st)) != p.ExprKey(idArg) {
+									all = false
+								}
+							}
+							if all {
+								continue
+							}
+						}
+					}
+				}
+			}
 			// origins of holder.AppId at the call
 			for _, o := range p.Origins(holder) {
 				switch {
 				case o.Kind == "call" && p.callIs(o.Call, "GetLiquidationOffsetHolder"):
 					// whole record as read: stored under the key it came from (unless AppId overwritten, handled by field stores)
 				case o.Kind == "call" && p.callIs(o.Call, "NewLiquidationOffsetHolder"):
-					na := o.Call.Call.Args
+					na := o.Call.Common().Args
 					ok2 := false
-					if len(na) == 2 && idArg != nil && p.ExprKey(na[0]) == p.ExprKey(idArg) {
+					if len(na) == 2 && idArg != nil && p.ExprKey(up(na[0], st)) == p.ExprKey(idArg) {
 						ok2 = true
 					}
 					if !ok2 {
-						// must be overwritten by a field store holder.AppId = id reaching the call
-						if !p.fieldAssignedBefore(sw, holder, "AppId", idArg, sc) {
-							keyOK = false
-							why = "when no offset record exists yet the fresh holder is stored under app id 0 instead of the id it was looked up under (" + p.instrPos(o.Call) + ")"
+						keyOK = false
+						why = "when no offset record exists yet the fresh holder is stored under app id 0 instead of the id it was looked up under (" + p.instrPos(o.Call) + ")"
+					}
+				case o.Kind == "param" && st.anchor != nil:
+					// a holder handed to a storing helper: what the sweep passes
+					if pr, isP := o.Val.(*ssa.Parameter); isP {
+						for _, o2 := range p.Origins(up(pr, st)) {
+							if o2.Kind == "call" && p.callIs(o2.Call, "NewLiquidationOffsetHolder") {
+								keyOK = false
+								why = "a fresh holder reaches the storing helper without its AppId set to the id it was looked up under"
+							}
 						}
 					}
 				}
@@ -450,37 +554,74 @@ func rulesC09(p *Prog, r *Report) {
 			why = "cannot identify the id the offset is read under"
 		}
 		if keyOK {
-			r.OK("R09.3", name+" offset key", "offset written under the key it was read from", p.instrPos(setC[0]))
+			r.OK("R09.3", name+" offset key", "offset written under the key it was read from", setPos)
 		} else {
-			r.Fail("R09.3", name+" offset key", "the sweep offset is not written back under the key it was read from: "+why+"; the sweep restarts from 0 every block and overwrites another sweep's offset", p.instrPos(setC[0]), nil)
+			r.Fail("R09.3", name+" offset key", "the sweep offset is not written back under the key it was read from: "+why+"; the sweep restarts from 0 every block and overwrites another sweep's offset", setPos, nil)
 		}
 		// (d) wrap and advance
 		r.Instance("R09.3")
 		wrap, advance := false, false
-		for _, st := range fieldStores(sw, "LiquidationOffsetHolder", "CurrentOffset") {
-			if isZeroValue(st.Val) {
-				// guarded by start == end ?
-				for d := st.Block(); d != nil; d = d.Idom() {
-					c := d.Idom()
-					if c == nil {
-						break
+		inFns := map[*ssa.Function]bool{}
+		for _, st := range sites {
+			inFns[st.in] = true
+		}
+		// wrap: on the start == end edge the cursor restarts from zero (stored, or the window recomputed from 0)
+		for f := range inFns {
+			for _, c := range f.Blocks {
+				if len(c.Instrs) == 0 {
+					continue
+				}
+				ifi, ok := c.Instrs[len(c.Instrs)-1].(*ssa.If)
+				if !ok {
+					continue
+				}
+				bo, ok := ifi.Cond.(*ssa.BinOp)
+				if !ok || bo.Op != token.EQL || !(fromSlice(bo.X, 0) && fromSlice(bo.Y, 1)) {
+					continue
+				}
+				d := c.Succs[0]
+				for _, b := range f.Blocks {
+					if b != d && !d.Dominates(b) {
+						continue
 					}
-					if ifi, ok := c.Instrs[len(c.Instrs)-1].(*ssa.If); ok {
-						if b, ok := ifi.Cond.(*ssa.BinOp); ok && b.Op == token.EQL && c.Succs[0] == d {
-							if p.fromSliceCall(b.X, sliceCalls, 0) && p.fromSliceCall(b.Y, sliceCalls, 1) {
+					for _, in := range b.Instrs {
+						if st, ok := in.(*ssa.Store); ok && isZeroValue(st.Val) {
+							base, path := addrBase(st.Addr)
+							if namedTypeName(derefAll(base.Type())) == "LiquidationOffsetHolder" && len(path) == 1 && path[0] == "CurrentOffset" {
+								wrap = true
+							}
+						}
+						if cc, ok := in.(*ssa.Call); ok && p.callIs(cc, "GetSliceStartEndForLiquidations") && len(cc.Call.Args) >= 2 {
+							a := cc.Call.Args[1]
+							if cv, isCv := a.(*ssa.Convert); isCv {
+								a = cv.X
+							}
+							if isZeroValue(a) {
 								wrap = true
 							}
 						}
 					}
 				}
-				continue
 			}
-			v := st.Val
-			if cv, ok := v.(*ssa.Convert); ok {
-				v = cv.X
+		}
+		for _, st := range sites {
+			_ = st
+		}
+		for f := range inFns {
+			var anchor hsite
+			for _, st := range sites {
+				if st.in == f {
+					anchor = st
+					break
+				}
 			}
-			if p.fromSliceCall(v, sliceCalls, 1) {
-				advance = true
+			for _, stv := range fieldStores(f, "LiquidationOffsetHolder", "CurrentOffset") {
+				if isZeroValue(stv.Val) {
+					continue
+				}
+				if fromSlice(up(stv.Val, anchor), 1) {
+					advance = true
+				}
 			}
 		}
 		if wrap && advance {
